@@ -493,6 +493,89 @@ def r167(db, ctx):
     (ctx.ok if ok else ctx.fail)('R16.7', f, 'Sampler::background() = from_counts(&self.background_counts)', *([['R16.1-R16.3: background_counts is the maintained state']] if ok else [f'returns {X.show(e, 100) if e else None}']))
 
 
+def r168(db, ctx):
+    ctx.rule('R16.8', 'the active-set container: test(i), set(i) and unset(i) address the same storage cell (same element index, same bit) for the same i; '
+                      'set makes test(i) true and unset makes it false; count changes by one exactly when the flag changes (sibling agreement)')
+    S_ = 'lightmotif::sampler::BitVec::'
+    fs = {}
+    for nm in ('test', 'set', 'unset'):
+        try:
+            fs[nm] = db.fn(S_ + nm)
+        except KeyError:
+            ctx.fail('R16.8', S_ + nm, 'container method', 'reason=anchor-missing')
+            return
+    addr = {}
+    for nm, f in fs.items():
+        R = X.Rec(f)
+        idxs, shifts = set(), set()
+        exprs = [norm(s_['target']) for s_ in X.stores(f, R)] + [norm(s_['value']) for s_ in X.stores(f, R)]
+        e = common.return_expr_single_path_allow(f)
+        if e is not None:
+            exprs.append(norm(e))
+        for bi in range(len(f.blocks)):
+            t = f.term(bi)
+            if t['k'] == 'switch':
+                exprs.append(norm(R.at(bi).operand(t['discr'])))
+            if t['k'] == 'call':
+                exprs.extend(norm(R.operand(a)) for a in t['args'])
+        for ex in exprs:
+            for x in X.walk(ex):
+                if x[0] == 'idx' and m(('fld', ('p', 1), 'data'), norm(x[1])) is not None:
+                    idxs.add(X.canon(norm(x[2])))
+                if x[0] == 'call' and x[1].endswith(('::index', '::index_mut')) and len(x[2]) == 2 and m(('fld', ('p', 1), 'data'), norm(x[2][0])) is not None:
+                    idxs.add(X.canon(norm(x[2][1])))
+                if x[0] == 'bin' and x[1] in ('Shl', 'ShlUnchecked', 'Shr', 'ShrUnchecked') and norm(x[2])[0] == 'k':
+                    shifts.add(X.canon(norm(x[3])))
+        addr[nm] = (frozenset(idxs), frozenset(shifts))
+    # a method may go through test() for its read: then its own read address is test's
+    probs = []
+    ref = addr['test']
+    if not ref[0]:
+        ctx.fail('R16.8', fs['test'], 'container addressing', 'reason=unrecognised-shape: test() does not index self.data')
+        return
+    for nm in ('set', 'unset'):
+        a_ = addr[nm]
+        if not a_[0]:
+            probs.append(f'{nm}() does not index self.data')
+            continue
+        if not a_[0] <= ref[0] or not ref[0] <= a_[0] | ref[0]:
+            probs.append(f'{nm}() addresses element {sorted(a_[0])} but test() reads element {sorted(ref[0])}')
+        if a_[1] != ref[1] and not (a_[1] <= ref[1] and a_[1]):
+            if a_[1] or ref[1]:
+                probs.append(f'{nm}() uses bit position {sorted(a_[1])} but test() uses {sorted(ref[1])}: it changes the flag of a different index')
+    # polarity and count discipline
+    for nm, want, delta in (('set', True, 'Add'), ('unset', False, 'Sub')):
+        f = fs[nm]
+        R = X.Rec(f)
+        st = [s_ for s_ in X.stores(f, R) if any(y == ('fld', ('p', 1), 'data') for y in X.walk(norm(s_['target'])))]
+        cnt = [s_ for s_ in X.stores(f, R) if m(('fld', ('p', 1), 'count'), norm(s_['target'])) is not None]
+        if len(st) != 1 or len(cnt) != 1:
+            probs.append(f'{nm}(): {len(st)} flag stores and {len(cnt)} count updates, expected one of each')
+            continue
+        v = norm(st[0]['value'])
+        okv = v == ('k', want) or (want and v[0] == 'bin' and v[1] == 'BitOr') or (not want and v[0] == 'bin' and v[1] == 'BitAnd' and any(y[0] == 'un' and y[1] == 'Not' for y in X.walk(v)))
+        if not okv:
+            probs.append(f'{nm}() stores {X.show(v, 60)}, expected the flag to become {str(want).lower()}')
+        cv = norm(cnt[0]['value'])
+        if m(('bin', delta, ('fld', ('p', 1), 'count'), ('k', 1)), cv) is None:
+            probs.append(f'{nm}() updates count to {X.show(cv, 60)}, expected count {"+" if want else "-"} 1')
+        if st[0]['block'] != cnt[0]['block'] and not (f.dominates(st[0]['block'], cnt[0]['block']) or f.dominates(cnt[0]['block'], st[0]['block'])):
+            probs.append(f'{nm}(): the flag and the count are not updated together')
+        # only when the flag actually changes: guarded by the current value of the same flag
+        # (the count update is what must be conditional: `if !data[i] { data[i] = true; count += 1 }`, `if !self.test(i) { .. }`, or
+        #  `let previous = mem::replace(&mut data[i], true); if !previous { count += 1 }`)
+        rels = G.relations(f, R, cnt[0]['block'])
+        reads_flag = lambda e: any(y == ('fld', ('p', 1), 'data') or (y[0] == 'call' and y[1].endswith(('BitVec::test', 'mem::replace'))) for y in X.walk(norm(e)))
+        guarded = any(r[0] in ('true', 'false') and (r[0] == 'true') != want and reads_flag(r[1]) for r in rels) or \
+            any(r[0] in ('eq', 'ne') and (reads_flag(r[1]) or reads_flag(r[2])) for r in rels)
+        if not guarded:
+            probs.append(f'{nm}(): count changes even when the flag already had the requested value')
+    if probs:
+        ctx.fail('R16.8', fs['unset'], 'active-set container', '; '.join(probs))
+    else:
+        ctx.ok('R16.8', fs['test'], 'test / set / unset address the same cell; count follows the flag', [f'element {sorted(ref[0])}', f'bit {sorted(ref[1]) or "-"}'])
+
+
 def run(db, ctx):
     r161(db, ctx)
     r162(db, ctx)
@@ -501,3 +584,4 @@ def run(db, ctx):
     r165(db, ctx)
     r166(db, ctx)
     r167(db, ctx)
+    r168(db, ctx)
